@@ -17,7 +17,7 @@ BUDGETS = {"quick": 25.0, "thorough": 420.0}
 CHUNK = 64
 RULE = (
     "seeded operation histories (store/has/fetch blob, sync/fetch paths, optional inner-store fault) run in lock "
-    "step on a bare store and on the same kind of store wrapped in the object cache, capacities {1,2,3,10,unbounded}, "
+    "step on a bare store and on the same kind of store wrapped in the object cache, capacities {0,1,2,3,10,unbounded} (0 by direct construction only), "
     "inner stores memory and local; a second family configures the cache through dds.set_store(cache_objects=...) and "
     "counts live fetched objects. A run is non-trivial when at least one fetch or presence check hit a key in a state "
     "where cache and store could differ (fetched before stored, stored after a miss, evicted, None-valued); distinct = "
@@ -36,7 +36,7 @@ ASSUMPTIONS = [
 PROBES = ["stores_recreated_on_emptied_directories", "fetch_before_store", "store_after_miss", "eviction", "none_blob_fetched_twice", "fault_served_from_cache",
           "api_family", "bound_checked"]
 
-CAPS = [1, 2, 3, 10, sys.maxsize // 2]
+CAPS = [0, 1, 2, 3, 10, sys.maxsize // 2]
 
 
 def gen_case(streams, tier, avoid):
